@@ -14,9 +14,9 @@ from common import HARNESS, REPO
 from gen import mibgen
 
 LEVEL = 'proof'
-MODULES = ['Pysmi.Props.C20', 'Pysmi.Props.C07', 'Pysmi.Props.C13']
-LAKE_TARGETS = ['Pysmi.Props.C20', 'Pysmi.Props.C07', 'Pysmi.Props.C13']
-THEOREMS = ['Pysmi.Cli.C20_exit', 'Pysmi.Cli.C20_report', 'Pysmi.Cli.C20_report_once', 'Pysmi.Cli.C20_mibcopy_latest', 'Pysmi.Cli.C20_mibcopy_provenance',
+MODULES = ['Pysmi.Props.C20', 'Pysmi.Props.C07', 'Pysmi.Props.C13', 'Pysmi.Pins.SkelC20']
+LAKE_TARGETS = ['Pysmi.Props.C20', 'Pysmi.Props.C07', 'Pysmi.Props.C13', 'Pysmi.Pins.SkelC20']
+THEOREMS = ['Pysmi.Pins.SkelC20.pin_mibdumpScript', 'Pysmi.Pins.SkelC20.pin_mibcopyScript', 'Pysmi.Cli.C20_exit', 'Pysmi.Cli.C20_report', 'Pysmi.Cli.C20_report_once', 'Pysmi.Cli.C20_mibcopy_latest', 'Pysmi.Cli.C20_mibcopy_provenance',
             'Pysmi.Cli.C20_mibcopy_order_irrelevant', 'Pysmi.Cli.C20_mibcopy_epoch_witness', 'Pysmi.Cli.mibcopy_dst',
             'Pysmi.Generated.Cli.pin_exit_codes', 'Pysmi.Generated.Cli.pin_absent_revision', 'Pysmi.Generated.Cli.C20_exit_generated', 'Pysmi.Generated.Cli.C20_index_guard', 'Pysmi.Generated.Cli.C20_run_generated',
             'Pysmi.Compile.C07_written_iff_reported_partial', 'Pysmi.Writer.C13_atomic', 'Pysmi.Writer.C13_dryrun']
